@@ -283,10 +283,10 @@ func (m *c31Machine) tickCheck(now time.Time) {
 	m.commit(obs)
 }
 
-func (m *c31Machine) advance(d time.Duration) {
+func (m *c31Machine) advance(d time.Duration, inclusive bool) {
 	to := m.rig.clk.Now().Add(d)
 	last := time.Time{}
-	m.rig.advance(to, func(now time.Time) {
+	m.rig.advance(to, inclusive, func(now time.Time) {
 		last = now
 		m.tickCheck(now)
 	})
@@ -331,14 +331,18 @@ func c31Run(t *rapid.T, rec *kit.Recorder) {
 			default:
 				d = time.Duration(rapid.IntRange(100, 170).Draw(t, "l")) * time.Second
 			}
-			c.Logf("advance %v", d)
-			m.advance(d)
+			// schedule: do the checker ticks that fall exactly on the new instant run before (true)
+			// or after (false) the next harness action at that instant?
+			incl := rapid.IntRange(0, 3).Draw(t, "ticksFirst") != 2
+			c.Logf("advance %v ticksFirst=%v", d, incl)
+			c.ClassIf(!incl, "hello_may_precede_tick_at_same_instant")
+			m.advance(d, incl)
 		}
 		m.checkLSP(m.observe())
 	}
 	// every neighbour now stops sending hellos: all must disappear
 	c.Logf("silence")
-	m.advance(30*time.Second + neighborDownTimeoutS*time.Second + c31RemovalSlack + 2*time.Second)
+	m.advance(30*time.Second+neighborDownTimeoutS*time.Second+c31RemovalSlack+2*time.Second, true)
 	for _, s := range m.slots {
 		if s.prev != c31Absent {
 			t.Fatalf("slot %d still listed (%s) after %v of silence", s.idx, c31StateName(s.prev), 30*time.Second+neighborDownTimeoutS*time.Second+c31RemovalSlack+2*time.Second)
